@@ -67,7 +67,9 @@ def addTemplates (fileName text nsName : Bytes) (nsAe : Autoescape) :
         -- (the Go code appends the folded params to the shared SoyDocNode; a later template
         --  cannot see that node again, because `prev` is then the template itself)
         addTemplates fileName text nsName nsAe rest (some c) (reg ++ [t])
-    | _ => addTemplates fileName text nsName nsAe rest (some c) reg
+    -- outside the templates a file holds its namespace, doc comments and the text between them
+    | .namespace .. | .soyDoc .. | .rawText .. => addTemplates fileName text nsName nsAe rest (some c) reg
+    | _ => none                                             -- "command outside of a template"
 
 /-- `Registry.Add(soyfile)`; `none` = it returns an error -/
 def add (reg : Reg) (f : SoyFile) : Option Reg :=
